@@ -14,7 +14,9 @@ A1 == Lit(I(1))  A2 == Lit(S(<<115>>))
 X == Var("x")
 ErrArg == Bin("/", A1, Lit(I(0)))
 Echo(as) == Call("hecho", as)
-Fail == { Call("herr", <<>>), Call("hval", <<A1>>), Call("htyp", <<A1, A2>>), MCall(A1, "herr", <<>>), Call("hnone", <<A1>>), MCall(A1, "hnone", <<>>) }
+Fail == { Call("herr", <<>>), Call("hval", <<A1>>), Call("htyp", <<A1, A2>>), MCall(A1, "herr", <<>>), Call("hnone", <<A1>>), MCall(A1, "hnone", <<>>),
+          \* (the harness's hval / htyp raise an exception WITHOUT message when given two / one arguments)
+          MCall(A1, "hval", <<A2>>), Call("hval", <<A1, A2>>), MCall(A1, "htyp", <<>>), Call("htyp", <<A2>>) }
 T == Lit(Bool(TRUE))  F == Lit(Bool(FALSE))
 Roots ==
        { Call("hzero", <<>>), Echo(<<>>) } \cup { Echo(<<a>>) : a \in Args } \cup { Echo(<<a, b>>) : a \in Args, b \in Args }
